@@ -262,3 +262,115 @@ Example C10_query_nonvacuous :
 Proof.
   split; [apply Inv_KeysOK, ex_state_inv|]. split; vm_compute; reflexivity.
 Qed.
+
+(* ---------------------------------------------------------------- concurrent mutations *)
+From Verif Require Import Common.Gate.
+From Verif Require Import BTree.Conc.
+
+(* Small-step model of insert / remove / compact_buckets (every DashMap-entry access, the btree lock and the
+   gate are atomic steps; any number of threads, any interleaving, unique or not): the calls that passed
+   their linearization point (the posting-entry step), run sequentially in that order on the ordered
+   multimap, produce the current multimap, and each call returns what the multimap returns there.  Hence no
+   acknowledged insert is lost and nothing is duplicated.  The proof needs `remove_if(k, is_empty)` to be ONE
+   critical section: with a separate check and removal the PCheckEmpty step is not silent. *)
+Theorem C10_concurrent_linearizable :
+  forall uniq (s0 s : sys),
+    init s0 -> csteps uniq s0 s ->
+    exists L : list nat,
+      NoDup L /\
+      (forall i, In i L <-> exists th, nth_error (snd s) i = Some th /\ passed (t_pc th) = true) /\
+      seq_run uniq (cabs (fst s0)) (map (entry (snd s)) L) (cabs (fst s)).
+Proof. exact linearizable. Qed.
+Print Assumptions C10_concurrent_linearizable.
+
+(* once every call has returned, the index content is that of SOME sequential order of ALL the calls *)
+Theorem C10_quiescent_is_sequential :
+  forall uniq (s0 s : sys),
+    init s0 -> csteps uniq s0 s -> quiescent s ->
+    exists L : list nat,
+      NoDup L /\ (forall i, In i L <-> (i < length (snd s))%nat) /\
+      seq_run uniq (cabs (fst s0)) (map (entry (snd s)) L) (cabs (fst s)).
+Proof. exact quiescent_sequential. Qed.
+Print Assumptions C10_quiescent_is_sequential.
+
+(* while compact_buckets holds the mutation gate no insert / remove is inside its critical section, and
+   the compaction is alone *)
+Theorem C10_gate_protects_compaction :
+  forall uniq (s0 s : sys),
+    init s0 -> readers (fst s0) = 0%nat -> writer (fst s0) = false -> csteps uniq s0 s ->
+    forall i th, nth_error (snd s) i = Some th -> t_pc th = PExcl ->
+      (forall j thj, nth_error (snd s) j = Some thj -> inside thj = false) /\
+      cnt excl (snd s) = 1%nat.
+Proof. exact gate_excludes. Qed.
+Print Assumptions C10_gate_protects_compaction.
+
+(* the same exclusion as an instance of the shared gate theory (Common/Gate.v), for the lock discipline
+   "mutations take the shared side, the closer publishes and takes the exclusive side" *)
+Theorem C10_gate_instance_of_common :
+  forall (s : gstate bool) (i : nat),
+    greach bool (fun b => b) (fun f f' => f' = f \/ f' = false) (fun _ f' => f' = false) s ->
+    at_pc bool s i CHeld ->
+    (forall j p, at_pc bool s j p -> holds_shared p = false) /\ (forall j, at_pc bool s j CHeld -> j = i).
+Proof.
+  apply gate_exclusion.
+  - intros f f' [->| ->]; auto.
+  - intros f f' ->. reflexivity.
+Qed.
+Print Assumptions C10_gate_instance_of_common.
+
+(* non-vacuity: the interleaving that loses an update when check and removal are separate -- remove(1,5)
+   empties the posting, insert(2,5) runs to completion, remove resumes -- executed step by step in the
+   model: the pair (2,5) is in the final multimap, key 5 is in the key set, no call is in flight *)
+Example C10_concurrent_nonvacuous :
+  let sh0 := mkS [(5, [1])] [5] 0 false in
+  let a := mkT (CRemove 1 5) PStart in
+  let b := mkT (CInsert 2 5) PStart in
+  let run := fix run (n : nat) (sh : shared) (th : thread) : shared * thread :=
+               match n with O => (sh, th) | S n' => match tstep false sh th with Some (sh', th') => run n' sh' th' | None => (sh, th) end end in
+  let '(sh1, a1) := run 2%nat sh0 a in          (* gate, get_mut: posting emptied *)
+  let '(sh2, b2) := run 9%nat sh1 b in          (* the whole insert *)
+  let '(sh3, a3) := run 9%nat sh2 a1 in         (* remove_if finds it non-empty *)
+  (t_pc a1, t_pc b2, t_pc a3, cabs sh3 2 5, cabs sh3 1 5, cbt sh3, readers sh3) =
+  (PCheckEmpty, PDone (CBool true), PDone (CBool true), true, false, [5], 0%nat).
+Proof. vm_compute. reflexivity. Qed.
+
+(* ---------------------------------------------------------------- dirty tracking *)
+From Verif Require Import BTree.ProofsDirty.
+
+(* [own s b k] = what a flush of bucket b writes for key k.  A clean bucket is not rewritten, so a mutation
+   that changes [own s b k] must leave b dirty -- otherwise flush + reload loses the change (or resurrects a
+   removed id).  Under the ownership invariant (every posting's bucket exists and lists its key): *)
+Theorem C10_remove_dirties_what_it_changes :
+  forall sz s id k r s',
+    OwnInv s -> remove sz s id k = (r, s') ->
+    forall b j, own s' b j <> own s b j -> dirtyb s' b = true.
+Proof. exact remove_dirties. Qed.
+Print Assumptions C10_remove_dirties_what_it_changes.
+
+Theorem C10_insert_dirties_what_it_changes :
+  forall cfg sz s id k r s',
+    SizesPos sz -> OwnInv s -> insert cfg sz s id k = (r, s') ->
+    forall b j, own s' b j <> own s b j -> dirtyb s' b = true.
+Proof. exact insert_dirties. Qed.
+Print Assumptions C10_insert_dirties_what_it_changes.
+
+(* the ownership invariant holds initially and is preserved by insert (incl. migration) and remove *)
+Theorem C10_ownership_invariant_partial :
+  OwnInv new_state /\
+  (forall cfg sz s id k r s', SizesPos sz -> OwnInv s -> insert cfg sz s id k = (r, s') -> OwnInv s') /\
+  (forall sz s id k r s', OwnInv s -> remove sz s id k = (r, s') -> OwnInv s').
+Proof. split; [exact OwnInv_new|]. split; [exact insert_OwnInv|exact remove_OwnInv]. Qed.
+Print Assumptions C10_ownership_invariant_partial.
+
+(* ... and the object a flush writes for a dirty bucket is exactly what the bucket owns *)
+Theorem C10_flush_writes_what_buckets_own :
+  forall s fo, OwnInv s -> flush s = Some fo ->
+    forall b, In b (dirty_ids (pre_flush s)) ->
+      exists ps, In (Put (PBucket b (version (pre_flush s))) (OBucket ps)) (f_steps fo) /\
+                 forall k, alookup k ps = own s b k.
+Proof. exact flush_writes_own. Qed.
+Print Assumptions C10_flush_writes_what_buckets_own.
+
+(* PARTIAL: the last link -- load of objects whose contents are pairwise key-disjoint [own] images rebuilds
+   exactly the postings, hence abs (load (flush s)) = abs s -- is not proved; it is compared on every run
+   (flush dumps, reload after every quiet window, dirty-tracking probes). *)
